@@ -537,6 +537,17 @@ func runShard(work, id, tier string, seed uint64, name, bin string, race bool, s
 			res.failed = "watchdog"
 			return res
 		}
+		if ee, ok := werr.(*exec.ExitError); ok && ee.ExitCode() == 3 {
+			// the worker asked to be recycled after reporting a hang / watchdog itself
+			res.restarts++
+			if res.restarts > 400 {
+				res.failed = "too many worker recycles"
+				return res
+			}
+			start = cs.Idx + 1
+			os.RemoveAll(tmp)
+			continue
+		}
 		clause, sig := classifyDeath(string(stderr))
 		v := violation{Clause: clause, Sig: sig, Entry: cs.Entry, Tags: cs.Tags, Case: &cs, Shard: name,
 			Detail: map[string]any{"exit": fmt.Sprint(werr), "stderr_head": headStr(string(stderr), 3000)}}
